@@ -325,7 +325,7 @@ def gen_malformed(rnd, which):
 def cases(tier, rnd):
     out = []
     q = tier == "quick"
-    for i in range(180 if q else 6000):
+    for i in range(180 if q else 8000):
         out.append(gen_load(rnd, tier, i))
     for i in range(30 if q else 200):
         out.append(gen_sumone(rnd, tier, i))
